@@ -333,7 +333,10 @@ def diff_kind(path, base, twin):
         return 'exception-family'
     p = path
     where = 'operand-after' if p.startswith('.after') else 'result'
-    for k in ('derivs', 'mask', 'values', 'units', 'shape', 'numer', 'denom', 'readonly', 'dtype', 'T'):
+    if '.derivs' in p:
+        # a derivative key present on one side only / a difference inside a derivative
+        return where + (':deriv-keys' if p.split('.derivs', 1)[1].count('.') == 1 else ':derivs')
+    for k in ('mask', 'values', 'units', 'shape', 'numer', 'denom', 'readonly', 'dtype', 'T'):
         if '.' + k in p:
             return where + ':' + k
     return where + ':value'
